@@ -284,3 +284,29 @@ def tla_literal(v):
     if isinstance(v, (list, tuple)):
         return '<<' + ', '.join(tla_literal(x) for x in v) + '>>'
     raise TypeError(v)
+
+
+def apalache(module, scratch, invs=(('Inv', 0), ('InvMutant', 12)), timeout=600):
+    """Discharge single-state invariants of spec/<module>.tla symbolically (Apalache, --length=0).
+
+    invs: (name, expected exit code) - 0 = holds for every initial state, 12 = refuted (used for the
+    deliberately wrong variants that keep the SMT run non-vacuous).  Returns {name: exit code | 'not run: ..'};
+    raises TlcFailure when a theorem expected to hold is refuted on the specification.
+    """
+    import shutil as _sh
+    import subprocess
+    res = {}
+    if not _sh.which('apalache-mc'):
+        return {name: 'apalache-mc not found' for name, _ in invs}
+    for name, want in invs:
+        try:
+            pr = subprocess.run(['apalache-mc', 'check', '--init=Init', '--next=Next', '--inv=' + name, '--length=0',
+                                 '--out-dir=' + os.path.join(scratch, 'apa_%s_%s' % (module, name)),
+                                 os.path.join(SPEC_DIR, module + '.tla')],
+                                stdout=subprocess.PIPE, stderr=subprocess.STDOUT, timeout=timeout, text=True, cwd=scratch)
+            res[name] = pr.returncode
+            if want == 0 and pr.returncode == 12:
+                raise TlcFailure('Apalache refutes %s!%s on the specification: %s' % (module, name, pr.stdout[-1500:]))
+        except (subprocess.TimeoutExpired, OSError) as e:
+            res[name] = 'not run: %s' % type(e).__name__
+    return res
